@@ -362,3 +362,32 @@ Proof.
 Qed.
 
 Print Assumptions g_recur_fetch_reverse_composed_eq.
+
+(* ------------------------------------------------------------------------------------------ *)
+(* Non-vacuity: the hypotheses "the model's fetch succeeds" hold on concrete patterns, and the  *)
+(* generated definitions compute the expected lists there.                                      *)
+
+(* every 2nd day at 09:00 UTC for one hour, one exdate *)
+Definition ex_daily : rule :=
+  mkRule Daily 2 [] [] [] [] [1704272400] None 32400 3600 utc_zone.
+(* monthly on the 31st (anchored 2024-01-31 00:00 UTC): the step-back loop runs *)
+Definition ex_monthly31 : rule :=
+  mkRule Monthly 1 [] [] [] [] [] (Some 1706659200) 0 3600 utc_zone.
+
+Example ex_forward_hyp :
+  exists l, fetch_forward ex_daily 1704067200 1704672000 = Ok l /\ length l = 3%nat /\
+            g_forward_of ex_daily (gen_anchor ex_daily) (model_rrule ex_daily 1704672000)
+                         (Some 1704067200) (Some 1704672000) = RDone l.
+Proof. eexists. split; [vm_compute; reflexivity|]. split; vm_compute; reflexivity. Qed.
+
+Example ex_reverse_hyp :
+  exists l, fetch_reverse_opt ex_daily (Some 1704067200) 1704672000 = Ok l /\ length l = 3%nat /\
+            g_recur_fetch_reverse (reverse_fuel ex_daily (Some 1704067200) 1704672000) Daily
+                                  (gen_fwd ex_daily) (Some 1704067200) (Some 1704672000) = RDone l.
+Proof. eexists. split; [vm_compute; reflexivity|]. split; vm_compute; reflexivity. Qed.
+
+(* 2024-02-10 looked at from a 31st-of-month anchor: February has no 31st, the loop steps back *)
+Example ex_anchor_stepback :
+  safe_anchor ex_monthly31 19763 = Some 19753 /\
+  g_safe_anchor_of (S BACK_FUEL) ex_monthly31 19763 = RDone 19753.
+Proof. split; vm_compute; reflexivity. Qed.
